@@ -69,6 +69,7 @@ inductive Refuse
   | propMissing        -- "highest proposal data is not found, …"
   | slashableAtt       -- HighestAttestationVote
   | slashableProp      -- HighestProposalVote
+  | writeFailed        -- the record update (`SaveHighestAttestation/Proposal`) returned an error
   deriving Repr, DecidableEq
 
 inductive Out
@@ -92,6 +93,8 @@ inductive Op
   | bumpWrite                 --           decided write
   | signAtt (s t : Nat)
   | signBlock (slot : Nat)
+  | signAttFault (s t : Nat)   -- a sign request whose record write fails (storage error / database closed under it)
+  | signBlockFault (slot : Nat)
   | tick (dt : Nat)
   | restart
   deriving Repr, DecidableEq
@@ -222,6 +225,18 @@ def stepSignBlock (cfg : Cfg) (s : State) (slot : Nat) : State × Out :=
       ({ s with d := { s.d with prop := some slot }, blocks := slot :: s.blocks }, .signed)
     else (s, .refused .slashableProp)
 
+/-- a sign request whose (single) record write fails: `UpdateHighestAttestation` returns the error before
+    `ValidationKeySign` is reached, so nothing is released and nothing changes; every earlier refusal is unchanged -/
+def stepSignAttFault (cfg : Cfg) (s : State) (x y : Nat) : State × Out :=
+  match stepSignAtt cfg s x y with
+  | (_, .signed) => (s, .refused .writeFailed)
+  | (_, o) => (s, o)
+
+def stepSignBlockFault (cfg : Cfg) (s : State) (slot : Nat) : State × Out :=
+  match stepSignBlock cfg s slot with
+  | (_, .signed) => (s, .refused .writeFailed)
+  | (_, o) => (s, o)
+
 def step (cfg : Cfg) (s : State) : Op → State × Out
   | .addShare => stepAdd cfg s false false
   | .addFail 0 => stepAdd cfg s true false
@@ -234,6 +249,8 @@ def step (cfg : Cfg) (s : State) : Op → State × Out
   | .bumpWrite => stepBumpWrite s
   | .signAtt x y => stepSignAtt cfg s x y
   | .signBlock slot => stepSignBlock cfg s slot
+  | .signAttFault x y => stepSignAttFault cfg s x y
+  | .signBlockFault slot => stepSignBlockFault cfg s slot
   | .tick dt => ({ s with clock := s.clock + dt }, .ok)
   | .restart => ({ s with pend := none }, .ok)
 
